@@ -115,6 +115,7 @@ var checks = map[string][]HarnessSpec{
 		{Name: "verifC16Keys", Pkg: ".", Labels: []string{"keys"}},
 		{Name: "verifC16Constructors", Pkg: ".", Labels: []string{"constructors"}},
 		{Name: "verifC16ZeroTTLConcurrent", NoisyNative: true, Pkg: ".", Labels: []string{"zero-ttl"}},
+		{Name: "verifC16FailureBesideSuccess", NoisyNative: true, Pkg: ".", Labels: []string{"failure-beside-success"}},
 		{Name: "verifC16Race", NoisyNative: true, Pkg: ".", Labels: []string{"race-checked"}, Race: true},
 	},
 	"C17": {
